@@ -51,6 +51,19 @@ fn dec(kind: &str, p: &[i64], frame: Vec<u8>) -> Result<Dec, Failure> {
             v.push(frame.clone());
         }
     });
+    // one frame in eight is preceded, on the same thread, by inputs that take the decoder's error returns (a pure
+    // function of the frame, so that a replay does the same): cut copies of the frame, an over-long copy, nothing
+    let v = h64(&frame);
+    if v % 8 == 0 {
+        let cut = [1usize, 3, 6, frame.len() - 1][((v >> 8) % 4) as usize].min(frame.len() - 1);
+        let mut long = frame.clone();
+        long.push((v >> 16) as u8);
+        let _ = catch(|| Message::try_from(&frame[..cut]).is_ok());
+        if (v >> 12) & 1 == 1 {
+            let _ = catch(|| Message::try_from(long.as_slice()).is_ok());
+            let _ = catch(|| Message::try_from(&frame[..0]).is_ok());
+        }
+    }
     let r = catch(|| Message::try_from(frame.as_slice())).map_err(|m| Failure::new(format!("c03:{kind}:panic"), m, rep(kind, p, &frame)))?;
     let msg = r.map_err(|e| Failure::new(format!("c03:{kind}:rejected"), format!("a frame the standard allows was rejected: {e}"), rep(kind, p, &frame)))?;
     let js = serde_json::to_value(&msg).map_err(|e| Failure::new(format!("c03:{kind}:json-error"), e.to_string(), rep(kind, p, &frame)))?;
@@ -860,7 +873,7 @@ fn sample_of(ctx: &Ctx, kind: &str, p: &[i64]) {
 }
 
 pub fn run(ctx: &Ctx) {
-    ctx.set_rule("per field, every code of the field (exhaustive; lists in coverage.classes) is placed in a whole frame built by an independent encoder, remaining fields a deterministic function of (field, code); decoded with Message::try_from and compared with the standard's value on the struct field and on the JSON key, within one LSB; registers must be present for every in-domain value. Sentinel codes and values outside the decoder's documented plausibility limits are outside the domain. Thorough adds random plausible combinations of all BDS 4,0/5,0/6,0 fields. Every (field, code) is non-trivial; distinct (field, parameter vector) pairs are counted.");
+    ctx.set_rule("per field, every code of the field (exhaustive; lists in coverage.classes) is placed in a whole frame built by an independent encoder, remaining fields a deterministic function of (field, code); decoded with Message::try_from and compared with the standard's value on the struct field and on the JSON key, within one LSB; registers must be present for every in-domain value. One frame in eight is decoded right after inputs that take the decoder's error returns on the same thread (cut copies of the frame, an over-long copy, the empty input). Sentinel codes and values outside the decoder's documented plausibility limits are outside the domain. Thorough adds random plausible combinations of all BDS 4,0/5,0/6,0 fields. Every (field, code) is non-trivial; distinct (field, parameter vector) pairs are counted.");
     ctx.assume("encoders in vcore::enc follow Annex 10 / Doc 9871 / DO-260B field layouts and LSBs; documented plausibility filters of BDS 4,0/5,0/6,0 are preconditions");
     let f = |k: &str| FIELDS.iter().find(|x| x.0 == k).unwrap().1;
 
